@@ -124,7 +124,25 @@ def do_replay(path):
         print(f"replay: obligation {data['obligation']} has no input-level witness (kind: {data.get('kind')})")
         print(json.dumps(data.get("solver_model", {}), indent=1)[:4000])
         return 1
-    res = h.replay(data["witness"])
+    try:
+        res = h.replay(data["witness"])
+    except BaseException as e:
+        # an exception that comes out of the code under check while it runs on the witness (a validated model, an
+        # in-range array) IS the failure: the obligation promised a result.  An exception raised by the replay code
+        # itself stays a checker error.
+        import traceback
+        tb = traceback.extract_tb(e.__traceback__)
+        inner = tb[-1].filename if tb else ""
+        in_repo = os.path.realpath(inner).startswith(os.path.realpath(REPO) + os.sep)
+        empty_children = isinstance(data["witness"], dict) and data["witness"].get("children") == []
+        if not in_repo or isinstance(e, (KeyboardInterrupt, SystemExit)) or empty_children:
+            # (a node without any child is outside the documented domain of the constructors: an exception there proves nothing)
+            raise
+        import re as _re
+        mm = _re.search(r"/path\d+/(.*)$", data.get("obligation", ""))
+        clause = mm.group(1) if mm else data.get("obligation", "").rsplit("/", 1)[-1]
+        res = {"violated": [clause, "raises"], "detail": {"the_real_code_raised": f"{type(e).__name__}: {e}",
+                                                         "at": f"{inner}:{tb[-1].lineno}", "witness": data["witness"]}}
     print(json.dumps(res, indent=1, default=str))
     return 1 if res["violated"] else 0
 
